@@ -101,6 +101,13 @@ type playDef struct {
 	SigAtMs int
 	// SigAfter: if set, SigAtMs counts from the moment the ledger shows this action started
 	SigAfter string
+	// TempoText / TempoNs: if TempoText is set it is the tempo as written in the script
+	// (e.g. "20400us", "0s", "1ns") and TempoNs its value; otherwise TempoMs milliseconds
+	TempoText string
+	TempoNs   int64
+	// ReadStdin: shakespeare is started with an OPEN pipe as standard input, and every
+	// cleanup, action and x2's spotlight read their standard input to its end first
+	ReadStdin bool
 	// JustBefore: the "just before the slot" play (see genJustBefore): re-run when every
 	// predecessor overran its slot
 	JustBefore bool
@@ -163,6 +170,9 @@ func (p *playDef) render(ledger string) string {
 		if p.CleanHangAt > 0 {
 			body += fmt.Sprintf(" if [ $n = %d ] && [ \"$CLBAD\" = 1 ]; then sleep 300; fi;", p.CleanHangAt)
 		}
+		if p.ReadStdin {
+			body = " cat >/dev/null;" + body
+		}
 		fmt.Fprintf(&b, "  cleanup n=$(cat cl.n 2>/dev/null || echo 0); n=$((n+1)); echo $n >cl.n; echo \"$ME C $n S $(date +%%s%%N)\" >>$LEDGER; rc=0;%s echo \"$ME C $n E $(date +%%s%%N) $rc\" >>$LEDGER; exit $rc\n", body)
 		if p.SpotKind != 0 {
 			fmt.Fprintf(&b, "  spotlight echo \"$ME P S $(date +%%s%%N)\" >>$LEDGER; eval \"$SPOT\"\n")
@@ -183,7 +193,11 @@ func (p *playDef) render(ledger string) string {
 		fmt.Fprintf(&b, "  %s plays %s with ME=%s LEDGER=%s CLBAD=%s SPOT='%s'\n", a, p.RoleOf[a], a, ledger, bad, spot)
 	}
 	b.WriteString("end\nscript\n")
-	fmt.Fprintf(&b, "  tempo %dms\n", p.TempoMs)
+	if p.TempoText != "" {
+		fmt.Fprintf(&b, "  tempo %s\n", p.TempoText)
+	} else {
+		fmt.Fprintf(&b, "  tempo %dms\n", p.TempoMs)
+	}
 	for _, s := range p.Scenes {
 		for _, e := range s.Entails {
 			var parts []string
@@ -336,6 +350,16 @@ func runPlay(shk string, p *playDef, idx int) (obs observation, cfgText string) 
 	var outb bytes.Buffer
 	c.Stdout = &outb
 	c.Stderr = &outb
+	if p.ReadStdin {
+		// a standard input that stays open without ever reaching EOF (like a terminal)
+		pr, pw, err := os.Pipe()
+		if err != nil {
+			panic(err)
+		}
+		c.Stdin = pr
+		defer pw.Close()
+		defer pr.Close()
+	}
 	c.SysProcAttr = &syscall.SysProcAttr{Setpgid: true}
 	obs.LaunchNs = time.Now().UnixNano()
 	if err := c.Start(); err != nil {
@@ -586,7 +610,13 @@ func genScript(rng *rand.Rand, p *playDef, maxActs, maxCols int) {
 				if d > 450 {
 					d = 450
 				}
-				p.Actions = append(p.Actions, actionDef{Name: name, DurMs: d})
+				ad := actionDef{Name: name, DurMs: d}
+				if rng.Intn(12) == 0 {
+					// the command deliberately leaves a process behind (the harness kills it after
+					// the play): the action ends when the command itself does
+					ad.Extra = pick3(rng, "sleep 100 & ", "(sleep 100 &); ", "setsid sleep 100 & ")
+				}
+				p.Actions = append(p.Actions, ad)
 				ed.Steps = append(ed.Steps, stepDef{Action: name, FailOk: rng.Intn(4) == 0})
 			}
 			sd.Entails = append(sd.Entails, ed)
@@ -769,6 +799,12 @@ func genLedgerPlay(rng *rand.Rand, prop string, i int) (*playDef, *cmd.VerifCfg)
 				p.SpotKind = 1
 			}
 		} else { // c05
+			switch i % 16 {
+			case 2:
+				p.TempoText, p.TempoNs = "0s", 0 // legal boundary tempo, with a non-tolerated failure (mode 2)
+			case 10:
+				p.TempoText, p.TempoNs = "1ns", 1
+			}
 			// one failing action (tolerated or not), or none
 			mode := i % 4
 			if mode != 0 {
@@ -878,6 +914,10 @@ func genLedgerPlay(rng *rand.Rand, prop string, i int) (*playDef, *cmd.VerifCfg)
 	}
 }
 
+func pick3(rng *rand.Rand, a, b, c string) string {
+	return []string{a, b, c}[rng.Intn(3)]
+}
+
 func pick2(rng *rand.Rand, a, b string) string {
 	if rng.Intn(2) == 0 {
 		return a
@@ -975,6 +1015,51 @@ func justBeforeHits(o *observation) int {
 }
 
 func justBeforeMissed(o *observation) bool { return justBeforeHits(o) == 0 }
+
+// genFineTempo: many columns at a tempo that is not a whole number of milliseconds
+// (20400 us x 80 columns; 1250 us x 200 columns): column k may not start before
+// k x tempo EXACTLY.
+func genFineTempo(name string, variant int) *playDef {
+	p := &playDef{Name: name, Spot: map[string]string{}, RoleOf: map[string]string{}}
+	p.Roles = []string{"r1"}
+	p.Actors = []string{"x1"}
+	p.RoleOf["x1"] = "r1"
+	cols := 80
+	p.TempoMs, p.TempoText, p.TempoNs = 20, "20400us", 20400000
+	if variant%2 == 1 {
+		cols = 200
+		p.TempoMs, p.TempoText, p.TempoNs = 1, "1250us", 1250000
+	}
+	p.Actions = []actionDef{{Name: "a0s0", DurMs: 0}, {Name: "b0s0", DurMs: 0}, {Name: "c0s0", DurMs: 0}}
+	p.Scenes = []sceneDef{
+		{"a", []entailDef{{"x1", []stepDef{{"a0s0", false}}}}},
+		{"b", []entailDef{{"x1", []stepDef{{"b0s0", false}}}}},
+		{"c", []entailDef{{"x1", []stepDef{{"c0s0", false}}}}},
+	}
+	st := []byte(strings.Repeat(".", cols))
+	st[0], st[cols/2], st[cols*3/4], st[cols-1] = 'a', 'b', 'c', 'b'
+	p.Story = []string{string(st)}
+	return p
+}
+
+// genSilentAct: an act made only of pauses that is neither the first act nor after the
+// repetition point (`a .. b`, repeat from b, repeat N times): b is played N times.
+func genSilentAct(rng *rand.Rand, name string, variant int) *playDef {
+	p := &playDef{Name: name, Spot: map[string]string{}, RoleOf: map[string]string{}}
+	p.Roles = []string{"r1"}
+	p.Actors = []string{"x1", "x2"}
+	p.RoleOf["x1"], p.RoleOf["x2"] = "r1", "r1"
+	p.TempoMs = pick(rng, []int{20, 40})
+	p.Actions = []actionDef{{Name: "a0s0", DurMs: 5}, {Name: "b0s0", DurMs: 5}, {Name: "b1s0", DurMs: 0}}
+	p.Scenes = []sceneDef{
+		{"a", []entailDef{{"x1", []stepDef{{"a0s0", false}}}}},
+		{"b", []entailDef{{"x2", []stepDef{{"b0s0", false}}}, {"x1", []stepDef{{"b1s0", false}}}}},
+	}
+	p.Story = []string{[]string{"a .. b", "a . ... ba", "a.a .. . b"}[variant%3]}
+	p.Repeat = "b"
+	p.RepeatN = 2 + variant%2
+	return p
+}
 
 // genManyActors: 70 acting actors (more than 64 csv files open) in a play longer than
 // 1 s (the collector's flush tick): every actor must have one csv row per action.
@@ -1256,6 +1341,17 @@ func genC07(rng *rand.Rand, tier string) []*playDef {
 		p.ExcuseSurvivor = "sleep 100"
 		add(p, "spotlight-setsid-child-holds-pipe", "-")
 	}
+	// 6f. shakespeare's own standard input stays open (no EOF) and the commands read
+	// theirs: they must see EOF at once (commands get no standard input)
+	{
+		p := baseC07("")
+		p.ReadStdin = true
+		for k := range p.Actions {
+			p.Actions[k].Extra = "cat >/dev/null; " + p.Actions[k].Extra
+		}
+		p.Spot["x2"] = "cat >/dev/null; sleep 300"
+		add(p, "commands-read-open-stdin", "-")
+	}
 	// 7. commands that outlive their scene (sleep 300) while the play is stopped:
 	// the known finding "running-action-or-cleanup-not-interruptible" makes these slow
 	// (60 s hard limit, or the harness' own bound), so few of them in the quick tier.
@@ -1383,6 +1479,9 @@ func expectedPlay(p *playDef) [][]cmd.VerifScene {
 		sceneOf[p.Scenes[i].Char] = &p.Scenes[i]
 	}
 	tempo := int64(p.TempoMs) * 1e6
+	if p.TempoText != "" {
+		tempo = p.TempoNs
+	}
 	var out [][]cmd.VerifScene
 	for _, actText := range strings.Fields(strings.Join(p.Story, " ")) {
 		var act []cmd.VerifScene
@@ -1498,7 +1597,8 @@ var faultKinds = []string{"none", "action-fails", "spotlight-fails", "spotlight-
 	"sigint", "sigterm", "action-hangs-sigint", "cleanup-hangs-1", "action-hangs-peer-fails", "action-hangs-sigterm",
 	"cleanup-hangs-2", "action-hangs-spotlight-fails", "action-hangs-audit-foul-S", "spotlight-graceful-hup", "audit-foul-S-chatty-long-action",
 	"signal-during-action", "signal-during-action-no-spotlights", "spotlight-ignores-hup-leader-signal",
-	"signal-during-initial-cleanup", "spotlight-setsid-child-holds-pipe", "action-hangs-two-sigints"}
+	"signal-during-initial-cleanup", "spotlight-setsid-child-holds-pipe", "action-hangs-two-sigints",
+	"commands-read-open-stdin"}
 
 func faultIdx(f string) int {
 	for i, k := range faultKinds {
@@ -1603,8 +1703,12 @@ func main() {
 			switch {
 			case *prop == "c05" && i%8 == 7:
 				p = genFanoutFail(rng, fmt.Sprintf("c05-%d-fanout", i), i/8)
+			case i%16 == 14:
+				p = genSilentAct(rng, fmt.Sprintf("%s-%d-silent-act", *prop, i), i/16)
 			case i%8 == 3:
 				p = genHeadShare(rng, fmt.Sprintf("%s-%d-headshare", *prop, i), i/8)
+			case *prop == "c04" && (i == n-4 || i == n-5 || i%100 == 96 || i%100 == 95):
+				p = genFineTempo(fmt.Sprintf("c04-%d-fine-tempo", i), i)
 			case *prop == "c04" && (i == n-3 || i%100 == 97):
 				p = genManyActors(fmt.Sprintf("c04-%d-many-actors", i))
 			case *prop == "c04" && (i == n-1 || i%100 == 99):
@@ -1721,6 +1825,20 @@ func main() {
 			}
 			if c.Def.Rdv {
 				dist[fmt.Sprintf("rendezvous-of-%d-lines", len(c.Def.Actors))]++
+			}
+			if strings.HasSuffix(c.Name, "fine-tempo") {
+				dist["many-columns-at-a-tempo-with-a-sub-millisecond-fraction"]++
+			}
+			if c.Def.TempoText == "0s" || c.Def.TempoText == "1ns" {
+				dist["tempo-"+c.Def.TempoText]++
+			}
+			for _, a := range c.Def.Actions {
+				if strings.Contains(a.Extra, "sleep 100 &") {
+					dist["actions-leaving-a-background-process"]++
+				}
+			}
+			if strings.HasSuffix(c.Name, "silent-act") {
+				dist["pause-only-act-before-the-repetition-point"]++
 			}
 			if strings.HasSuffix(c.Name, "headshare") {
 				dist["multi-line-scene-heading-two-groups"]++
